@@ -2,7 +2,7 @@
    tied to both clients by harness/props/c08.py on every run. *)
 From Coq Require Import ZArith NArith List Bool.
 Import ListNotations.
-From EIO Require Import Client ClientProofs ClientInv.
+From EIO Require Import Client ClientProofs ClientInv ClientReasons.
 Open Scope N_scope.
 
 (* send() on a client that is not connected is a no-op: nothing queued, nothing emitted, state untouched *)
@@ -47,9 +47,29 @@ Proof. exact reachable_inv. Qed.
 Theorem c08_nonvacuous : polite ex_cfg ex_ops init = true /\ lc (concat (snd (run_ops ex_cfg ex_ops init))) = [true; false; true; false].
 Proof. exact polite_history. Qed.
 
+(* The reason of a disconnect event tells who ended the connection.  One step of a task can only give the reasons of its kind:
+   a read loop 'transport error' or - when it handles packets - 'server disconnect'; the handshake of connect() 'client disconnect'
+   (the connect handler disconnected) or 'server disconnect' (a CLOSE packet came with the OPEN packet); a message handler that
+   calls disconnect() 'client disconnect'; the write loop, wait(), the upgrade probe and a pending disconnect() none at all. *)
+Theorem c08_reason_by_task : forall cfg t e s, Forall (among (reasons_of (t_task e))) (ClientReasons.outof (run_task cfg t e s)).
+Proof. exact task_reasons. Qed.
+
+(* ... an application call only 'client disconnect', and only disconnect() *)
+Theorem c08_reason_by_call : forall cfg me call x s,
+  Forall (among (match x with ADisconnect => is_client | _ => none_of end)) (ClientReasons.outof (run_api cfg me call x s)).
+Proof. exact api_reasons. Qed.
+
+(* ... and 'server disconnect' is given only while a payload that holds a CLOSE packet is handled *)
+Theorem c08_server_disconnect_needs_close : forall me l s,
+  Forall (if has_close l then only RServer else nodisc) (ClientReasons.outof (receive_all me l s)).
+Proof. exact receive_all_reason. Qed.
+
 Print Assumptions c08_send_noop_when_not_connected.
 Print Assumptions c08_disconnect_noop_when_not_connected.
 Print Assumptions c08_nothing_after_the_end.
 Print Assumptions c08_lifecycle_alternates.
 Print Assumptions c08_reachable_invariant.
 Print Assumptions c08_nonvacuous.
+Print Assumptions c08_reason_by_task.
+Print Assumptions c08_reason_by_call.
+Print Assumptions c08_server_disconnect_needs_close.
